@@ -52,13 +52,26 @@ def function_half(scratch):
         def get_commit_url(self, sha):
             return 'u'
 
-    class W:
-        def __init__(self, i):
-            self.name = 'w%d' % i
-            self.sha = 'c%d' % i
+    # the integration branches are objects of the real classes (the gate may look at any of their attributes):
+    # the source branch as GhostIntegrationBranch on the first destination, then w/<version>/<source>.
+    # Two layouts: a development cascade, and a stabilization cascade, where the source ghost and w/4.3/...
+    # carry the same major.minor.  The verdict of Gates.tla depends on the status vector only.
+    from bert_e.workflow.gitwaterflow import branches as gwfb
+    LAYOUTS = {'dev': ['development/4.3', 'development/5.1', 'development/10.0', 'development/10.1', 'development/11'],
+               'stab': ['stabilization/4.3.18', 'development/4.3', 'development/5.1', 'development/10.0',
+                        'development/10']}
 
-        def get_latest_commit(self):
-            return self.sha
+    def W_list(layout, k):
+        out = []
+        for i, d in enumerate(LAYOUTS[layout][:k]):
+            dst = gwfb.branch_factory(None, d)
+            if i == 0:
+                b = gwfb.GhostIntegrationBranch(None, 'bugfix/TEST-1-x', dst)
+            else:
+                b = gwfb.branch_factory(None, 'w/%s/bugfix/TEST-1-x' % dst.version)
+            b.get_latest_commit = (lambda sha: (lambda: sha))('c%d' % i)
+            out.append(b)
+        return out
 
     class PR:
         author = 'author'
@@ -87,8 +100,8 @@ def function_half(scratch):
                 git_repo = object()
             BE.settings = settings
             gwf.setup({'bypass_build_status': True} if (bypass and src == 2) else {})
-            ws = [W(i) for i in range(k)]
-            for x, exp in enumerate(line['res']):
+            for layout, (x, exp) in [(l_, xe) for l_ in sorted(LAYOUTS) for xe in enumerate(line['res'])]:
+                ws = W_list(layout, k)
                 st = {}
                 yv = x
                 for i in range(k):
@@ -108,7 +121,7 @@ def function_half(scratch):
                 n += 1
                 classes.add((k, exp, bypass, nokey))
                 if got != exp:
-                    bad.append(dict(k=k, statuses=[st['c%d' % i] for i in range(k)], bypass=bypass,
+                    bad.append(dict(k=k, layout=[w.name for w in ws], statuses=[st['c%d' % i] for i in range(k)], bypass=bypass,
                                     source=['comment', 'per-author', 'command line'][src], nokey=nokey,
                                     expected=exp, got=got))
             gwf.setup({})
@@ -143,7 +156,7 @@ def check(tier, seed):
         samples=[dict(k=lines[0]['k'], bypass=lines[0]['bypass'], nokey=lines[0]['nokey'],
                       expected_vector_head=lines[0]['res'][:6])] + res['samples'][:1],
         evaluations=n + gated, distinct_nontrivial=len(classes),
-        rule='function half: all 5^k status vectors, k=1..4, x bypass (three sources) x build key; distinct = '
+        rule='function half: all 5^k status vectors, k=1..4, x bypass (three sources) x build key x two layouts of real branch objects (development cascade; stabilization cascade where the source ghost and w/x.y share major.minor); distinct = '
              '(k, outcome, bypass, key) classes. history half: clause C06.gate on every real Queued / '
              'SuccessMessage outcome of the system exploration (%d such outcomes this run)' % gated,
         function_cases=n, history_outcomes_checked=gated, disagreements=len(bad), exhaustive=True,
